@@ -404,7 +404,7 @@ class GateSpec(H.Spec):
 
     def key(self, g, model):
         hs = self.hs
-        extra = tuple(sorted((k, repr(x)[:120]) for k, x in vars(g).items()
+        extra = tuple(sorted((k, H.describe_attr(g, x)) for k, x in vars(g).items()
                              if k not in ('_version', '_version_given', 'metadata', 'column', '_row', '_index')))
         return (model['v'], model['prelude'], extra, 'orig' in model or 'original' in model, str(g.version), tuple(reachable_v3(hs, g)), len(g), tuple(sorted(g.metadata.keys())),
                 tuple((c, tuple(sorted(m.keys())), type(m).__name__) for c, m in g.column.items()))
